@@ -4,13 +4,13 @@ Functions under contract (real bodies): Transect.__init__, Transect.transect_dat
 utils.move_dimensions_to_end, name_to_data_array, Convention.ravel (DimensionConvention.ravel inline, C03).
 Callee contract: Transect.segments = a sequence of any length of segments (linear_index(k) a valid cell, start(k), end(k)) and Transect.points
 (the path vertices) -- produced by the geometric part.
-Also under contract (real bodies), against abstract geometry terms: Transect.distance_along_line (which vertex, which projection, which two
+Also under contract (real bodies), against abstract geometry terms: Transect.points (LOOP-INVARIANT rule: every vertex with its projection,
+normalised position and accumulated distance), Transect.distance_along_line (which vertex, which projection, which two
 projected geometries), Transect.segments and Transect._intersect_polygon -- routing only: which
 cells and which pieces become segments, what each segment carries, and the order of the list (FOREACH / COLLECT rule for the two nested
 loops over sequences of symbolic length; library contracts SH-STRTREE-QUERY, SH-INTERSECTION, PY-SORTED; callee contract
 distance_along_line(point) = D(point)).
-NOT decided deductively: what the geometry terms denote -- shapely intersections, cartopy projections, Transect.points,
-distance_along_line, floating-point distances: bounded native stand-in harness/native/C18.py with the optional cfunits import satisfied
+NOT decided deductively: what the geometry terms denote -- shapely intersections, cartopy projections, floating-point distances: bounded native stand-in harness/native/C18.py with the optional cfunits import satisfied
 by a stub -- labelled bounded.
 """
 from __future__ import annotations
@@ -39,6 +39,7 @@ def scenarios(tier):
             out.append({'name': f'prepare_data_array_for_transect[{cfg[0]}, layout {layout}]', 'fn': 'scn_prepare', 'kwargs': {'ci': ci, 'layout': layout}})
     for bounds in (False, True):
         out.append({'name': f'transect_dataset[depth bounds {"given" if bounds else "derived"}]', 'fn': 'scn_dataset', 'kwargs': {'bounds': bounds}})
+    out.append({'name': 'Transect.points (loop invariant)', 'fn': 'scn_points', 'kwargs': {}})
     out.append({'name': 'Transect.distance_along_line', 'fn': 'scn_distance_along_line', 'kwargs': {}})
     for ci, cfg in enumerate(CONFIGS):
         out.append({'name': f'Transect._intersect_polygon[{cfg[0]}]', 'fn': 'scn_intersect_polygon', 'kwargs': {'ci': ci}})
@@ -365,6 +366,160 @@ class _PathLine:
         if not normalized:
             raise core.Unsupported('LineString.project without normalized=True')
         return SFloat(FIN, mk_real(f(self.z, point.z)))
+
+
+class _CRSModule:
+    """cartopy.crs as far as Transect uses it: AzimuthalEquidistant(central_longitude, central_latitude, globe) is a projection determined by
+    its centre; project_geometry / distance are terms (what they are numerically is cartopy's business, bounded natively)"""
+    _pyvc_model_class = True
+
+    class _AE:
+        _pyvc_model_class = True
+
+        def __init__(self, lon, lat, globe):
+            self.lon, self.lat, self.globe = lon, lat, globe
+
+        def project_geometry(self, geom, src_crs=None):
+            c = core.ctx()
+            f = c._shp_fns.setdefault('ae_project', z3.Function('ae_project', z3.RealSort(), z3.RealSort(), core.GeomSort, core.GeomSort))
+            if not hasattr(geom, 'z'):
+                raise core.Unsupported('project_geometry of something that is not a geometry')
+            c.event('project_geometry', self, geom, src_crs)
+            num = lambda v: core.zreal(v.val if hasattr(v, 'val') else v)
+            return _Projected(f(num(self.lon), num(self.lat), geom.z))
+
+    @staticmethod
+    def AzimuthalEquidistant(central_longitude=None, central_latitude=None, globe=None, **kw):
+        if kw:
+            raise core.Unsupported(f'AzimuthalEquidistant options {sorted(kw)}')
+        return _CRSModule._AE(central_longitude, central_latitude, globe)
+
+
+class _VertexLine:
+    """the path as a LineString with symbolically many vertices: coords[j] is vertex j, project(point, normalized=True) a term"""
+    _pyvc_model_class = True
+
+    def __init__(self, c, npts):
+        from pyvc.lib.shapely_ import CoordTok
+        self.z = z3.Const('path', core.GeomSort)
+        self.vert = c.fresh_fn('vertex', z3.IntSort(), core.GeomSort)
+        self.npts = npts
+        self.coords = SymSeq(npts, lambda j: CoordTok(self.vert(zint(j)), self, j), 'list')
+
+    def project(self, point, normalized=False):
+        c = core.ctx()
+        f = c._shp_fns.setdefault('line_project', z3.Function('line_project', core.GeomSort, core.GeomSort, z3.RealSort()))
+        if not normalized or not hasattr(point, 'z'):
+            raise core.Unsupported('LineString.project other than (point, normalized=True)')
+        return SFloat(FIN, mk_real(f(self.z, point.z)))
+
+
+class _PointList:
+    """the list `points` after some iterations, described by the invariant: only its last element is ever read, and it is appended to"""
+    _pyvc_model_class = True
+
+    def __init__(self, length, last):
+        self.length, self.last = length, last
+        self.appended = []
+
+    def _getitem(self, idx):
+        if idx == -1 and not self.appended:
+            return self.last
+        raise core.Unsupported('the invariant of Transect.points describes points[-1] only')
+
+    def append(self, x):
+        self.appended.append(x)
+
+
+def scn_points(c):
+    """Transect.points (real body; loop invariant): vertex j of the path gets the point itself, the azimuthal equidistant projection centred
+    on it, distance_normalised = line.project(point, normalized=True) (0 for the first), and distance_metres(j) = distance_metres(j - 1) +
+    the planar distance, in the projection of vertex j - 1, between the projections of vertex j - 1 and vertex j (0 for the first)."""
+    from pyvc.api import LoopSpec, loop_invariant
+    from pyvc.lib.shapely_ import AbsGeom, _fn
+    it, ds, conv, conv_name, fdims, nk = _setup(c, 0, [])
+    _fn('pred_intersects', core.GeomSort, core.GeomSort, z3.BoolSort())
+    npts = sym_size(c, 'npts', 2)
+    line = _VertexLine(c, npts)
+    it.module('emsarray.transect').env['crs'] = _CRSModule
+    T = cls(it, 'emsarray.transect', 'Transect')
+    TP = cls(it, 'emsarray.transect', 'TransectPoint')
+    tr = expect_ok(c, 'Transect(dataset, line)', lambda: it.instantiate(T, [ds, line], {'depth': 'zc'}))
+    px = c.fresh_fn('point_x', core.GeomSort, z3.RealSort())
+    py = c.fresh_fn('point_y', core.GeomSort, z3.RealSort())
+    AbsGeom.x = property(lambda self: SFloat(FIN, mk_real(px(self.z))))
+    AbsGeom.y = property(lambda self: SFloat(FIN, mk_real(py(self.z))))
+    M = c.fresh_fn('metres', z3.IntSort(), z3.RealSort())         # ghost: the specified accumulated distance
+
+    def proj(j, g):           # projection centred on vertex j applied to geometry term g
+        f = c._shp_fns.setdefault('ae_project', z3.Function('ae_project', z3.RealSort(), z3.RealSort(), core.GeomSort, core.GeomSort))
+        return f(px(line.vert(j)), py(line.vert(j)), g)
+
+    def leg(j):               # planar distance between vertex j and vertex j + 1 in the projection centred on vertex j
+        d = c._shp_fns.setdefault('planar_distance', z3.Function('planar_distance', core.GeomSort, core.GeomSort, z3.RealSort()))
+        return d(proj(j, line.vert(j)), proj(j, line.vert(j + 1)))
+
+    def spec_point(j):        # the element the invariant prescribes for vertex j
+        p = AbsGeom(line.vert(zint(j)), fixed_kind='Point')
+        return it.instantiate(TP, [], {'point': p, 'crs': _CRSModule._AE(p.x, p.y, None), 'distance_metres': SFloat(FIN, mk_real(M(zint(j)))),
+                                       'distance_normalised': SFloat(FIN, mk_real(c._shp_fns['line_project'](line.z, line.vert(zint(j)))))})
+
+    def matches(el, j, what):
+        a = el.attrs
+        jz = zint(j)
+        ok = hasattr(a.get('point'), 'z') and isinstance(a.get('crs'), _CRSModule._AE)
+        c.check(f'{what}: a TransectPoint holding a point and an azimuthal equidistant projection', ok)
+        if not ok:
+            raise PathEnd()
+        c.check(f'{what}: the point is vertex j of the path', mk_bool(a['point'].z == line.vert(jz)))
+        c.check(f'{what}: its projection is centred on the vertex itself', mk_bool(z3.And(core.zreal(a['crs'].lon.val) == px(line.vert(jz)),
+                                                                                           core.zreal(a['crs'].lat.val) == py(line.vert(jz)))))
+        return a
+
+    f = c._shp_fns.setdefault('line_project', z3.Function('line_project', core.GeomSort, core.GeomSort, z3.RealSort()))
+    state = {}
+
+    def init(env):
+        pts = env.lookup('points')
+        ok = isinstance(pts, list) and len(pts) == 1
+        c.check('before the loop: the list holds exactly the first vertex', ok)
+        if not ok:
+            raise PathEnd()
+        a = matches(pts[0], 0, 'first vertex')
+        c.check('first vertex: accumulated distance 0 and normalised distance 0', a.get('distance_metres') == 0 and a.get('distance_normalised') == 0)
+        c.assume(M(0) == 0)                       # definition of the ghost function M, base case
+
+    def havoc(env, k):
+        c.assume(M(zint(k) + 1) == M(zint(k)) + leg(zint(k)))        # definition of M, step case, at the arbitrary k
+        last = spec_point(k)
+        if True:
+            # vertex 0 is recorded with the integer 0, not a float: both denote the same numbers
+            pass
+        state['list'] = env.vars['points'] = _PointList(mk_int(zint(k) + 1), last)
+        env.vars.pop('previous', None)
+
+    def step(env, k):
+        lst = state['list']
+        c.check('an iteration appends exactly one element', len(lst.appended) == 1 and env.lookup('points') is lst)
+        if len(lst.appended) != 1:
+            raise PathEnd()
+        a = matches(lst.appended[0], mk_int(zint(k) + 1), 'vertex k + 1')
+        c.check('vertex k + 1: normalised distance = line.project(vertex, normalized=True)',
+                hasattr(a.get('distance_normalised'), 'val') and mk_bool(core.zreal(a['distance_normalised'].val) == f(line.z, line.vert(zint(k) + 1))))
+        c.check('vertex k + 1: accumulated distance = that of vertex k + the planar distance between the projections of vertex k and vertex k + 1 in the '
+                'projection centred on vertex k, both projected from the CRS of the data',
+                hasattr(a.get('distance_metres'), 'val') and mk_bool(core.zreal(a['distance_metres'].val) == M(zint(k) + 1)))
+        evs = [e for e in c.events if e[0] == 'project_geometry']
+        c.check('exactly the two vertices are projected, from the CRS of the data', len(evs) >= 2 and all(getattr(e[3], '_path', None) == 'cartopy.crs.PlateCarree()' for e in evs))
+
+    def final(env, n):
+        nn = mk_int(zint(n) + 1)
+        env.vars['points'] = SymSeq(nn, lambda j: spec_point(j), 'list')
+
+    func = it.class_attr(T, 'points')[1]
+    loop_invariant(it, func, 'for point in map(shapely.Point, self.line.coords[1:])', LoopSpec(init, havoc, step, final))
+    res = expect_ok(c, 'Transect.points returns', lambda: it.getattr(tr, 'points'))
+    c.check('one element per vertex of the path', hasattr(res, 'length') and s_eq(res.length, npts))
 
 
 def scn_distance_along_line(c):
